@@ -11,6 +11,10 @@ ops (`<f>` ∈ `none|pre|post`; `<m>` = node id or `j<k>` for the k-th non-node 
 * `R:<v>:<m>:<f>`     `v >> m`                  * `S:<v>:<m>:<f>`     `v << m`
 * `D:<v>`             `del v.children`          * `X:<v>:<xname>`     `del v[name]`
 * `N:<xname>:<arg>:<arg>:<fp>:<fc>`  `DAGNode(name, parents=…, children=…)` (gets the next id)
+* `M:<k>`  the harness mutates its own (caller-side) list object number k between two calls; no DAGNode
+  API is called, so the store does not change (`ok` + the same dump). A list object passed to several
+  calls is written `H<k>=<m,m,…>` (k = which object, then the content the caller last gave it): the model
+  reads it as the list `L<m,m,…>` — it sees equal lists, never shared ones.
 
 Output: for each op `<ok|rej> <i>:<parents>/<children> …` (every node, ids ascending, lists in
 store order), ops joined by ` ; `. -/
@@ -35,6 +39,10 @@ def parseArg (t : String) : Option Arg :=
   | ['N'] => some .nonIter
   | 'L' :: r => (parseMembers (String.ofList r)).map .list
   | 'T' :: r => (parseMembers (String.ofList r)).map .tuple
+  | 'H' :: r =>          -- `H<k>=<members>`: caller-side list object k; to the model it is just a list
+    match (String.ofList r).splitOn "=" with
+    | [k, ms] => if k.toNat?.isSome then (parseMembers ms).map .list else none
+    | _ => none
   | _ => none
 
 def parseFault (t : String) : Option Fault :=
@@ -81,9 +89,20 @@ def showOutcome : Outcome → String
   | .ok => "ok"
   | .rej => "rej"
 
-def runShow (asrt : Bool) : DStore → List Op → Option (List String)
+/-- a protocol step: a modelled operation, or a caller-side event that calls nothing -/
+inductive Tok where
+  | op (o : Op)
+  | noop
+
+def parseTok (t : String) : Option Tok :=
+  match t.splitOn ":" with
+  | ["M", k] => k.toNat?.map fun _ => .noop
+  | _ => (parseOp t).map .op
+
+def runShow (asrt : Bool) : DStore → List Tok → Option (List String)
   | _, [] => some []
-  | s, op :: ops =>
+  | s, .noop :: ops => (runShow asrt s ops).map fun rest => ("ok " ++ dump s) :: rest
+  | s, .op op :: ops =>
     if receiverOk s op then
       let r := step asrt s op
       (runShow asrt r.1 ops).map fun rest => (showOutcome r.2 ++ " " ++ dump r.1) :: rest
@@ -105,7 +124,7 @@ def handle (toks : List String) : String :=
     let names ← if namesTok == "-" then some [] else (namesTok.splitOn ",").mapM unhex
     if names.length ≠ n then none
     if ¬ toks.contains "ops=" then none
-    let ops ← opToks.mapM parseOp
+    let ops ← opToks.mapM parseTok
     let outs ← runShow asrt (init n fun i => names.getD i []) ops
     pure (" ; ".intercalate outs)
   r.getD "bad-op"
